@@ -42,6 +42,12 @@ func c02Determinism(c *vlib.Ctx) {
 	}
 	perType := c.Pick(60, 1500)
 	idx := 0
+	if len(corpus.Modified) > 0 && c.Begin(1<<28) {
+		for _, name := range corpus.Modified {
+			c.Violation("input-buffer-modified:while-building-inputs:"+name, "decoding a well-formed input in place (NoCopy) changed the bytes of the caller's buffer", map[string]any{"first_layer": name})
+		}
+		c.End()
+	}
 	for ti, t := range cp.Types {
 		if ti%c.NBatch != c.Batch {
 			continue
